@@ -215,7 +215,15 @@ func execFork(p *Process, argv []string) error {
 	}*/
 
 	err := cmd.Wait()
-	if err != nil && !strings.HasPrefix(err.Error(), "signal:") && err.Error() != "wait: no child processes" {
+	if err != nil && strings.HasPrefix(err.Error(), "signal:") {
+		// The process was terminated by a signal. That isn't reported as a
+		// murex error (eg ctrl+c) but the command hasn't succeeded either.
+		// ProcessState.ExitCode() is -1 for signalled processes, which `try`
+		// et al (exitNum > 0) would treat as success, so use a positive number.
+		p.ExitNum = 1
+		return nil
+	}
+	if err != nil && err.Error() != "wait: no child processes" {
 		//mxdtR.Close()
 		debug.Log(err)
 		return err
